@@ -143,14 +143,13 @@ DbAspects(d, od) ==
   IF ids # DOMAIN d \/ Len(od) # Cardinality(ids) THEN {"db.ids"}
   ELSE UNION {
     LET i == od[j].id  os == od[j].objs IN
-    IF Len(os) # Len(d[i]) THEN {"db.count"}
-    ELSE UNION {
+    (IF Len(os) # Len(d[i]) THEN {"db.count"} ELSE {}) \cup UNION {
       (IF os[g].type = d[i][g].type THEN {} ELSE {"db.type"})
       \cup (IF os[g].alive = d[i][g].alive THEN {} ELSE {"db.alive"})
       \cup (IF Near(os[g].ct, d[i][g].ct, 1) THEN {} ELSE {"db.ct"})
       \cup (IF (os[g].dt = NoTime) = (d[i][g].dt = NoTime)
                /\ (d[i][g].dt = NoTime \/ Near(os[g].dt, d[i][g].dt, 1)) THEN {} ELSE {"db.dt"})
-      : g \in 1..Len(os)}
+      : g \in 1..(IF Len(os) < Len(d[i]) THEN Len(os) ELSE Len(d[i]))}
     : j \in 1..Len(od)}
 
 SelAspects(T, flt, osel, tag) ==
